@@ -257,3 +257,16 @@ package tan
 //@ ghostset gWriteFailed := old(gWriteFailed) || result != nil
 //@ func (w *writer) size [C10]
 //@ trusted in-memory
+
+// ---------------------------------------------------------------- tan: importing a snapshot (C20 C04)
+// the records written by the import (removal of the old state, the imported snapshot and state)
+// are fsynced before the import reports success
+//@ func (d *db) importSnapshot [C20]
+//@ trusted writes the records of the import into the log (no fsync)
+//@ ghostset gUnsynced := true
+//@ func (l *LogDB) ImportSnapshot [C20 C04]
+//@ noframe
+//@ nobounds
+//@ requires !gUnsynced && !gWriteFailed && !gReadFailed && !gDirDirty && gDirHandles[obj(l.bsDir)]
+//@ modifies gUnsynced, gWriteFailed, gDirDirty, gDataSynced, held(l.mu)
+//@ ensures result == nil ==> !gUnsynced
